@@ -16,6 +16,8 @@ def spec(tier):
     }
     for algo, pools, oc in algos:
         for multi in (True, False):
+            if not th and not multi and algo in ("overbook", "starter"):
+                continue        # these two always build single-operator containers; the flag only reaches the executor
             for wname, pp in workloads.items():
                 if not th and pools > 1 and wname != "dags" and algo != "priority-pool":
                     continue
@@ -31,6 +33,11 @@ def spec(tier):
                         obs.append(CH(name=nm, harness="rsim.runs_to_end",
                                       sym=dict(cpus=I(1, 20), ram=I(1, 40), ma=I(1, 8), mb=I(1, 8), ta=I(0, 3), da=I(1, 2)),
                                       fixed=dict(cfg=cfg, db=1), timeout=1500))
+    # overbook: abandonment while sibling operators are queued and CPUs are scarce
+    cfg2 = dict(algo="overbook", pools=2, oc=True, multi=False, duration=12,
+                pipes=[pipe("single", prio=3, at=0, durs=[1], mems=["mb"]), pipe("fork4", prio=2, at="ta", durs=["da", 2, 2, 2], mems=[1, "ma", 1, 1])])
+    obs.append(CH(name="runs_overbook_abandon_fork", harness="rsim.runs_to_end",
+                  sym=dict(cpus=I(1, 3), ram=I(2, 8), ma=I(0, 9), mb=I(0, 9), ta=I(0, 3), da=I(1, 3)), fixed=dict(cfg=cfg2, db=1), timeout=1200))
     # sub-GB pools and one CPU
     for algo, pools, oc in (("naive", 1, False), ("priority", 1, False), ("priority-pool", 2, False), ("overbook", 1, True), ("starter", 1, False)):
         for ramv in (0.25, 0.5):
